@@ -139,6 +139,9 @@ def build():
     u.assume('compile_base callee contract as proved in unit sym (value = native evaluation, base cache stays sound); resolve_ext_var as proved in unit sym; cache key abstraction NodeKey; builder arithmetic contracts')
     u.text(open(os.path.join(HERE, 'gadget_prelude.rs')).read())
     u.text(SPEC.replace('@@TYPES@@', types_from_repo()))
+    # pure helpers a change may add to the operation kind (e.g. a peephole on the operand): reasoned about by their bodies
+    from vf.unit import pull_pure_type_helpers
+    u.text(pull_pure_type_helpers(u, 'circuit/src/symbolic/dag.rs', 'BinOp', (), rewrites=[(r'\bSymbolicExpr<', 'SymbolicExpressionExt<'), (r'\bSymbolicExpr::', 'SymbolicExpressionExt::')]))
     u.text('verus! { broadcast use {ax::node_key_model, vstd::std_specs::hash::group_hash_axioms}; }')
     C = 'circuit/src/symbolic/compiler.rs'
     cb = u.extract(C, r"impl<'a> SymbolicCompiler<'a>", 'compile_ext', 'SymbolicCompiler::compile_ext')
